@@ -149,6 +149,16 @@ struct mdspan {
     constexpr mdspan(mdspan const& rhs) = default;
     constexpr mdspan(mdspan&& rhs)      = default; // NOLINT(performance-noexcept-move-constructor)
 
+    constexpr auto operator=(mdspan const& rhs) -> mdspan& = default;
+    constexpr auto operator=(mdspan&& rhs) -> mdspan&      = default; // NOLINT(performance-noexcept-move-constructor)
+
+    friend constexpr auto swap(mdspan& x, mdspan& y) noexcept -> void
+    {
+        auto tmp = etl::move(x);
+        x        = etl::move(y);
+        y        = etl::move(tmp);
+    }
+
     template <typename... OtherIndexTypes>
         requires(
             (is_convertible_v<OtherIndexTypes, index_type> && ...)
